@@ -139,7 +139,7 @@ def proof_status(prop_id):
             res["problems"].append("axiom audit failed: " + (out + err)[-800:])
             return res
         axioms = {}
-        for m in re.finditer(r"'([^']+)' (does not depend on any axioms|depends on axioms: \[([^\]]*)\])", out.replace("\n", " ")):
+        for m in re.finditer(r"'(\S+)' (does not depend on any axioms|depends on axioms: \[([^\]]*)\])", out.replace("\n", " ")):
             axioms[m.group(1).split(".")[-1]] = [] if m.group(3) is None else [a.strip() for a in m.group(3).split(",")]
         with open(cache_f, "w") as f:
             json.dump(axioms, f)
